@@ -8,7 +8,7 @@ from fractions import Fraction
 ID = "C10"
 BACKENDS = ("py",)          # duration.py / interval.py arithmetic does not touch the helper backends
 GEN_MODULES = ("Duration",)
-MIN_THEOREMS = 22
+MIN_THEOREMS = 24
 RULE = ("ops: durop <op> <L> <R> with op in neg abs add sub mul truediv floordiv mod divmod; L a Duration (9 integer arguments), "
         "an Interval of a given length (delegation through as_duration()) or - for the reflected forms - a plain timedelta/int/float; "
         "R a Duration, Interval, plain timedelta, int, or float (sent as its exact integer ratio). Lengths: +-few us, +-seconds, "
